@@ -530,6 +530,74 @@ PROBES = [
 ]
 
 
+def warm_ops(typ, i):
+    """ops that make simulation i hold every cache it can hold (assembled matrices, csr maps, mass blocks, geometric
+    factors): boundary conditions, a time-dependent scheme for the Newton simulations, an assembly / a solve"""
+    if typ == "Beam":
+        bc = [{"op": "dirichlet", "i": i, "where": "clamp", "values": [0.0, 0.0, 0.0]}, {"op": "lagrange", "i": i, "where": "corner"},
+              {"op": "neumann", "i": i, "where": "tip", "values": [1000.0]}]
+    elif typ in ("Thermal", "WeakForms"):
+        bc = [{"op": "dirichlet", "i": i, "where": "left", "values": [1.0]}]
+    else:
+        bc = [{"op": "dirichlet", "i": i, "where": "left", "values": [0.0, 0.0]}]
+    if typ in ("PhaseField", "InElastic"):
+        bc.append({"op": "dirichlet", "i": i, "where": "right", "values": [0.002, 0.0]})
+    if typ == "HyperElastic":
+        bc = [{"op": "rho", "i": i, "value": 300.0}, {"op": "algo", "i": i, "kind": "hyperbolic", "dt": 0.05}] + bc + \
+             [{"op": "neumann", "i": i, "where": "right", "values": [3.0, 0.0]}]
+    out = bc + [{"op": "solve", "i": i}]
+    if KIND[typ] == "KLin":
+        out.append({"op": "getk", "i": i})
+    if typ == "PhaseField":
+        out += [{"op": "getk", "i": i}, {"op": "getk", "i": i, "dmg": True}]
+    return out
+
+
+def op_variants(typ, op):
+    """the op itself and, for an isometric mesh move (which leaves several cached quantities numerically valid), the
+    non-isometric coordinate assignment on the same mesh"""
+    out = [op]
+    if op["op"] == "move" and op["kind"] in ("Translate", "Rotate", "Symmetry"):
+        out.append({"op": "move", "m": op["m"], "kind": "CoordSet", "args": [1.2, 1.2] if typ == "Beam" else [1.7, 0.8]})
+    return out
+
+
+def failing_candidates(c, k):
+    """candidate op sequences for a flag mismatch at op k of case c: the op (or its stronger variant) is made the LAST op,
+    (A) right after every simulation was warmed up, (B) for objects a simulation is not using at that moment (a mesh of
+    its history): after saving before each mesh replacement, restoring each saved iteration and warming up again"""
+    typ, opts, ops = c["type"], c.get("opts", {}), c["ops"]
+    opk = ops[k]
+    nsim = sum(1 for o in ops[:k] if o["op"] == "newsim")
+    cands = []
+    warm_all = [x for i in range(nsim) for x in warm_ops(typ, i)]
+    for v in op_variants(typ, opk):
+        cands.append({"type": typ, "opts": opts, "ops": ops[:k] + [v]})
+        cands.append({"type": typ, "opts": opts, "ops": ops[:k] + warm_all + [v]})
+    # (B) history revisit; saved-iteration indices of the original ops are remapped after the inserted saves
+    hist_ops, nsave, remap = [], {}, {}
+    for o in ops[:k]:
+        if o["op"] == "setmesh" and typ != "WeakForms":
+            hist_ops += warm_ops(typ, o["i"]) + [{"op": "saveiter", "i": o["i"]}]
+            nsave[o["i"]] = nsave.get(o["i"], 0) + 1
+            hist_ops.append(o)
+        elif o["op"] == "saveiter":
+            remap.setdefault(o["i"], []).append(nsave.get(o["i"], 0))
+            nsave[o["i"]] = nsave.get(o["i"], 0) + 1
+            hist_ops.append(o)
+        elif o["op"] == "setiter":
+            m_ = remap.get(o["i"], [])
+            hist_ops.append(dict(o, j=m_[o["j"]] if o["j"] < len(m_) else o["j"]))
+        else:
+            hist_ops.append(o)
+    for i, n_ in nsave.items():
+        for j in range(n_):
+            for v in op_variants(typ, opk):
+                cands.append({"type": typ, "opts": opts,
+                              "ops": hist_ops + [{"op": "setiter", "i": i, "j": j}, {"op": "bcinit", "i": i}] + warm_ops(typ, i) + [v]})
+    return cands[:16]
+
+
 def shrink(ctx, case, still_bad):
     """greedy one-op-deletion shrink; still_bad(list of results) is evaluated on the harness output"""
     cur = case
@@ -775,29 +843,8 @@ def run(ctx):
         if key in seen:
             continue
         seen.add(key)
-        # search: turn the broken flag prediction into a concrete failing op sequence -- the op whose flag differs
-        # is made the LAST op, preceded by an assembly (so that something is cached) on every simulation
-        nsim = sum(1 for o in c["ops"][:k] if o["op"] == "newsim")
-        warm_g = [{"op": "getk", "i": i} for i in range(nsim)] + ([{"op": "getk", "i": i, "dmg": True} for i in range(nsim)] if c["type"] == "PhaseField" else [])
-        dofv_ = {"Thermal": [1.0], "WeakForms": [1.0], "Beam": [0.0, 0.0, 0.0]}.get(c["type"], [0.0, 0.0])
-        warm_s = [x for i in range(nsim) for x in ({"op": "dirichlet", "i": i, "where": "clamp" if c["type"] == "Beam" else "left", "values": dofv_}, {"op": "solve", "i": i})]
-        cands = [{"type": c["type"], "opts": c.get("opts", {}), "ops": c["ops"][:k] + w + [c["ops"][k]]} for w in ([], warm_g, warm_s)]
-        # ... and, when the op touches an object the simulation is not using right now (a mesh of its history), re-visit
-        # every earlier configuration first: save before each mesh replacement, restore each saved iteration, assemble,
-        # then repeat the op
-        if c["type"] not in ("PhaseField",):
-            hist_ops, nsave = [], {}
-            for o in c["ops"][:k + 1]:
-                if o["op"] == "setmesh":
-                    hist_ops.append({"op": "saveiter", "i": o["i"]})
-                    nsave[o["i"]] = nsave.get(o["i"], 0) + 1
-                elif o["op"] == "saveiter":
-                    nsave[o["i"]] = nsave.get(o["i"], 0) + 1
-                hist_ops.append(o)
-            for i, n_ in nsave.items():
-                for j in range(n_):
-                    tail_ = [{"op": "setiter", "i": i, "j": j}, {"op": "bcinit", "i": i}] + ([] if KIND[c["type"]] == "KNonLin" else [{"op": "getk", "i": i}]) + [c["ops"][k]]
-                    cands.append({"type": c["type"], "opts": c.get("opts", {}), "ops": hist_ops + tail_})
+        # search: turn the broken flag prediction into a concrete failing op sequence (see failing_candidates)
+        cands = failing_candidates(c, k)
         hit = None
         try:
             for cand, rr in zip(cands, run_impl(ctx, cands)):
@@ -819,8 +866,12 @@ def run(ctx):
             exp = [[list(y) for y in x[0]] for x in model_traces(ctx, [pre], "C14_flagcase")[0]]
         except RuntimeError:
             pass
-        ctx.violation(key, "update flags of the %s simulation after op %d (%s) are %s, the model driven by the table derived from source predicts %s" % (
-            c["type"], k, c["ops"][k]["op"], fl, [list(x) for x in pf]),
+        impl_more = all((not a) or b for fa, fb in zip(fl, [list(x) for x in pf]) for a, b in zip(fb, fa)) if KIND[c["type"]] != "KPF" else \
+            all(a or (not b) for fa, fb in zip(fl, [list(x) for x in pf]) for a, b in zip(fb, fa))
+        expl = ("the implementation only invalidates MORE than the model requires (over-invalidation costs an assembly, it cannot make a value stale)"
+                if impl_more else "%d candidate sequences ending with this op (after warming up every cache, with the stronger variant of the op, and after re-visiting every saved configuration) all gave values identical to a fresh simulation" % len(cands))
+        ctx.violation(key, "update flags of the %s simulation after op %d (%s) are %s, the model driven by the table derived from source predicts %s; %s" % (
+            c["type"], k, c["ops"][k]["op"], fl, [list(x) for x in pf], expl),
             {"replay_py": replay_snippet(pre, expflags=exp, flagsmatter=True), "ops": pre["ops"]}, found_input=False)
     for c, s in harness_err[:2]:
         ctx.violation("corr:harness-exception:%s" % c["type"], "building the fresh reference failed: %s" % s["detail"], {"ops": c["ops"], "tb": s.get("tb", "")}, found_input=False)
